@@ -2576,7 +2576,7 @@ def r12_23(rep):
     rep.need(n >= 1, "parse_str::<Ident> chains ending in expect/unwrap in ir/objc.rs")
 
 
-@RULES.rule("R12.24", "a bit width is only handed to libclang's evaluator after the expression AND its parts were checked for template parameters", floor=2)
+@RULES.rule("R12.24", "a bit width is only handed to libclang's evaluator after the expression AND its parts were checked for template parameters", floor=4)
 def r12_24(rep):
     """`clang_getFieldDeclBitWidth` crashes (SIGSEGV, no unwinding) on a value-dependent width.  `Cursor::bit_width` therefore asks
     `is_dependent_on_template_parameter` of the width expression first.  That test has to cover the expression node itself - is it a
@@ -2599,6 +2599,14 @@ def r12_24(rep):
             own.append(c)
     visits = [c for c in b.calls(lambda x: x["k"] == "MCall" and x["name"] == "visit") if strip(c["recv"]).get("id") == selfp]
     ok = bool(own) and bool(visits) and min(c["_i"] for c in own) < min(c["_i"] for c in visits)
+    vis = prog.fn("clang::Cursor::is_dependent_on_template_parameter::visitor")
+    if rep.check(vis is not None, "visitor-found", "the child visitor of is_dependent_on_template_parameter", b.loc(b.root)):
+        tail = strip(vis.root.get("tail") or {})
+        deep = tail.get("k") == "Path" and str(tail.get("def", "")).endswith("CXChildVisit_Recurse")
+        rep.check(deep, "whole-expression-visited", "the visitor recurses into every child" if deep else
+                  "the visitor's result for an ordinary node is `%s`, not CXChildVisit_Recurse: a parameter two levels down "
+                  "(`int x : (N + 1) * 2;`) is not found and the evaluator is called on a dependent expression (SIGSEGV)" % vis.canon(tail, 2)[:60],
+                  vis.loc(tail) if tail else vis.loc(vis.root))
     rep.check(ok, "own-referent-checked", "`self.referenced()` is examined before the children are visited" if ok else
               "the expression's own referent is never examined: `int x : N;` (a bare reference to the parameter, no children) passes as "
               "non-dependent and libclang's evaluator crashes on it", b.loc(b.root))
@@ -2653,3 +2661,59 @@ def r12_25(rep):
                           "the `Err` arm contains `%s`: a construct that merely cannot be modelled aborts the whole run when the belief about "
                           "the cause is wrong" % bad, b.loc(a["body"]))
     rep.need(n >= 3, "`Err(..)` arms of matches over parse results in ir/")
+
+
+# ---------------------------------------------------------------------------------------------
+# R12.26  unsigned subtraction in the IR builders
+# ---------------------------------------------------------------------------------------------
+IR_SUBTRACTIONS_BY_INVARIANT = {
+    # (function, canonical shape) -> the invariant that keeps it from wrapping (read, not decided)
+    ("bitfields_to_allocation_units", "align*8-1"): "the alignment of an integer type is at least 1",
+    ("bitfields_to_allocation_units", "offset-start"): "start_offset_in_struct is a copy of an earlier offset_in_struct, offsets of consecutive fields do not decrease",
+    ("cursor_mangling", "len-4"): "inside `if mangling.ends_with(\"D0Ev\")`: the string has at least four bytes",
+    ("namespace_aware_canonical_path", "len-1"): "a canonical path always holds the item's own name",
+    ("format_method_call", "len-1"): "`split(':')` yields at least one piece",
+}
+
+
+def _sub_shape(b, n):
+    l, r = b.canon(n["l"], 3), b.canon(n["r"], 3)
+    if "len(" in l and r.startswith("lit:"):
+        return "len-" + r[4:]
+    if "* lit:8" in l.replace("'", "") and r == "lit:1":
+        return "align*8-1"
+    if "offset_in_struct" in l and "start_offset_in_struct" in r:
+        return "offset-start"
+    return l[:30] + "-" + r[:30]
+
+
+@RULES.rule("R12.26", "no unsigned subtraction in the IR builders can wrap", floor=7)
+def r12_26(rep):
+    """`args.drain(args_len - num_expected_template_args..)` in `BindgenContext::instantiate_template` is only safe behind the guard
+    `if args_len < num_expected_template_args { return None }`; weakening the guard ("defaulted trailing parameters are fine") makes
+    the subtraction wrap - a panic inside libclang's visitor callback, i.e. an abort - for `Outer<Two<V>>` with a defaulted second
+    parameter (seeded change).  Every `-` on an unsigned integer in `bindgen/ir/` is either proved from a comparison on its path (the
+    prover of R12.16) or listed with the invariant it relies on."""
+    prog = rep.prog
+    n = 0
+    per = {}
+    for p, b in sorted(prog.bodies.items()):
+        if not b.file.startswith("bindgen/ir/"):
+            continue
+        for x in b.nodes:
+            if x["k"] != "Binary" or x["op"] != "-" or (b.ty(x) or "") not in ("usize", "u32", "u64", "u8", "u16") or b.macro_name(x):
+                continue
+            n += 1
+            fn = p.split("::")[-1]
+            why = _ge_proof(b, x)
+            shape = _sub_shape(b, x)
+            k0 = "no-wrap:%s:%s" % (fn, shape if len(shape) < 24 else "sub")
+            per[k0] = per.get(k0, 0) + 1
+            key = k0 if per[k0] == 1 else "%s#%d" % (k0, per[k0] - 1)
+            if why is None and (fn, shape) in IR_SUBTRACTIONS_BY_INVARIANT:
+                rep.ok(key, "by invariant: " + IR_SUBTRACTIONS_BY_INVARIANT[(fn, shape)], b.loc(x))
+                continue
+            rep.check(why is not None, key, why or
+                      "`%s` can wrap: no comparison on the path shows the left side is at least the right side (debug builds panic, inside a "
+                      "libclang callback that is an abort; release builds continue with a huge value)" % b.canon(x, 3)[:90], b.loc(x))
+    rep.need(n >= 7, "unsigned subtractions in bindgen/ir/")
